@@ -17,7 +17,7 @@ typedef struct gx_msg {
     char method[16]; int method_num;
     char target[120];
     char proto[16]; int pnum;
-    char path[120]; char query[120]; int has_query;
+    char path[120]; int path_absent;   /* absolute-form target with an empty path: no path, an empty one or "/" are all faithful */ char query[120]; int has_query;
     char uhost[64]; int uport;             /* authority in an absolute-URI target ("" if none)      */
     int nreqh; gx_hdr reqh[GX_MAXH];
     char host[64]; int port;               /* expected request_hostname / request_port_number       */
